@@ -117,10 +117,10 @@ if [ -n "$VH_ORPHAN" ] && [ -e "$VH_ORPHAN" ]; then . "$VH_TOOLS/orphan.sh"; fi
 mkdir -p "$2"
 rm -f "$2/COMPILED"
 if [ -n "$VH_GROUP" ] && [ -e "$VH_GROUP" ]; then
-  # the whole process group is killed while the compiler is half way: the file of the first device
-  # is written, no stamp; then the script and this child die (nobody keeps fd 9)
+  # the whole process group is killed while the compiler is half way: the file of ONE device (the last
+  # of the topology: the one that differs from revision to revision) is written, no stamp; then the script and this child die (nobody keeps fd 9)
   read VHP < "$VH_GROUP"; rm -f "$VH_GROUP"
-  r=$(sed -n 's/^router:\([A-Za-z0-9_]*\) .*/\1/p' "$1/topology" | head -n 1)
+  r=$(sed -n 's/^router:\([A-Za-z0-9_]*\) .*/\1/p' "$1/topology" | tail -n 1)
   [ -n "$r" ] && grep "^router:$r " "$1/topology" > "$2/$r"
   kill -9 "$VHP" $$
 fi
